@@ -271,12 +271,20 @@ static void handler(vh::Reader& r, vh::Out& o)
 		const Vector v((unsigned int) d, 1.0);
 		sink = v[(unsigned int) i];
 	}
-	else if(op == "dot" || op == "vec_add" || op == "vec_sub" || op == "vec_addeq" || op == "vec_subeq" || op == "cross")
+	else if(op == "dot" || op == "vec_add" || op == "vec_sub" || op == "vec_addeq" || op == "vec_subeq" || op == "cross" || op == "vec_mul" || op == "angle" || op == "vec_eq" || op == "outer")
 	{
 		long a = r.integer(), b = r.integer();
 		Vector v(ramp(a)), w(ramp(b));
 		if(op == "dot")
 			sink = v.Dot(w);
+		else if(op == "vec_mul")
+			sink = v * w;
+		else if(op == "angle")
+			sink = Angle(v, w);
+		else if(op == "vec_eq")
+			sink = (v == w) ? 1.0 : 0.0;
+		else if(op == "outer")
+			use(Outer_Vector_Product(v, w));
 		else if(op == "vec_add")
 			use(v + w);
 		else if(op == "vec_sub")
@@ -801,6 +809,44 @@ static void handler(vh::Reader& r, vh::Out& o)
 		}
 		else if(w == "cross")
 			use(v.Cross(Vector(ramp(r.integer()))));
+		else if(w == "subeq")
+		{
+			v -= Vector(ramp(r.integer()));
+			use(v);
+		}
+		else if(w == "mul")
+			sink = v * Vector(ramp(r.integer()));
+		else if(w == "angle")
+			sink = Angle(v, Vector(ramp(r.integer())));
+		else if(w == "eq")
+			sink = (v == Vector(ramp(r.integer()))) ? 1.0 : 0.0;
+		// the object as the RIGHT operand
+		else if(w == "rdot")
+			sink = Vector(ramp(r.integer())).Dot(v);
+		else if(w == "radd")
+			use(Vector(ramp(r.integer())) + v);
+		else if(w == "rsub")
+			use(Vector(ramp(r.integer())) - v);
+		else if(w == "raddeq")
+		{
+			Vector u(ramp(r.integer()));
+			u += v;
+			use(u);
+		}
+		else if(w == "rsubeq")
+		{
+			Vector u(ramp(r.integer()));
+			u -= v;
+			use(u);
+		}
+		else if(w == "rmul")
+			sink = Vector(ramp(r.integer())) * v;
+		else if(w == "rangle")
+			sink = Angle(Vector(ramp(r.integer())), v);
+		else if(w == "rcross")
+			use(Vector(ramp(r.integer())).Cross(v));
+		else if(w == "req")
+			sink = (Vector(ramp(r.integer())) == v) ? 1.0 : 0.0;
 		else if(w != "none")
 		{
 			o.w("HARNESSERR unknown_vec_probe");
